@@ -330,6 +330,38 @@ fn c04_trim_reset() {
     core::mem::forget(t);
 }
 
+fn reset_case<const N: usize>(lg_cur: u8) {
+    let e: [u64; N] = kani::any();
+    let theta: u64 = kani::any();
+    kani::assume(theta >= 1 && theta <= MAX_THETA);
+    // lg_nom = 5 with resize factor X2: initial size 2^5, maximum size 2^6
+    let mut t = raw_table_nom(5, lg_cur, theta, &e);
+    t.reset();
+    assert!(t.entries.len() == 32 && t.lg_cur_size == 5, "reset did not restore the initial table size");
+    let mut i = 0;
+    while i < 32 {
+        assert!(t.entries[i] == 0, "a hash survived reset()");
+        i += 1;
+    }
+    assert!(t.num_entries == 0 && t.is_empty() && t.theta == MAX_THETA);
+    kani::cover!(e[0] != 0 && e[N - 1] != 0);
+    core::mem::forget(t);
+}
+
+//@ props: C04
+//@ tier: quick
+//@ timeout: 600
+//@ functions: theta::ThetaHashTable::reset
+//@ functions: theta::starting_sub_multiple
+//@ bounds: lg_nom = 5 (the public minimum), resize factor X2: a table at its initial size (32 slots) and a grown table (64 slots), every slot content and theta arbitrary (no invariant assumed: reset must clear whatever is there)
+//@ desc: reset() restores the initial state whatever the table held and whether or not it had grown: 32 zero slots, no entries, theta = initial theta, empty flag set
+#[kani::proof]
+#[kani::unwind(66)]
+fn c04_reset_step() {
+    reset_case::<32>(5);
+    reset_case::<64>(6);
+}
+
 //@ props: C04 C17 C18
 //@ tier: quick
 //@ timeout: 300
